@@ -15,8 +15,9 @@ SIMPLE = ["INTEGER", "REAL", "STRING", "BOOLEAN", "LOGICAL", "NUMBER"]
 
 
 class Attr:
-    def __init__(self, name, ty, optional=False, inverse_for=None):
+    def __init__(self, name, ty, optional=False, inverse_for=None, redecl_of=None):
         self.name, self.ty, self.optional, self.inverse_for = name, ty, optional, inverse_for
+        self.redecl_of = redecl_of          # `SELF\\<redecl_of>.<name> : ty` — redeclaration of an inherited attribute
         self.line = self.for_line = 0
 
 
@@ -47,9 +48,25 @@ class SyntaxError_:
         self.scope_kind, self.scope_name, self.line = scope_kind, scope_name, 0
 
 
+class Item:
+    def __init__(self, old, new=None):
+        self.old, self.new, self.line = old, new, 0
+
+    def visible(self):
+        return self.new or self.old
+
+
+class Iface:
+    """USE FROM / REFERENCE FROM clause; items None = the whole schema"""
+
+    def __init__(self, kind, schema, items=None):
+        self.kind, self.schema, self.items, self.line = kind, schema, items, 0
+
+
 class Schema:
     def __init__(self, name):
         self.name, self.decls = name, []
+        self.ifaces = []
         self.drop_semicolon = None     # (decl index, what) for the syntax-error mutant
 
     def entities(self):
@@ -103,12 +120,20 @@ def subs_text(x):
     return "(" + f" {op} ".join(subs_text(i) for i in items) + ")"
 
 
-def gen_schema(rng, size=6, tag=""):
+def s_with(s, ents):
+    """a view of `s` that already contains `ents` (used while the schema is being built)"""
+    v = Schema(s.name)
+    v.decls = s.decls + [e for e in ents if e not in s.decls]
+    return v
+
+
+def gen_schema(rng, size=6, tag="", pre=""):
+    """`pre` is put in front of every declared name (keeps the schemas of one file disjoint)"""
     s = Schema("sch" + tag)
     n_types = rng.randint(1, max(2, size // 2))
     tnames = []
     for i in range(n_types):
-        nm = f"ty_{i}{rng.choice('abcxyz')}"
+        nm = f"{pre}ty_{i}{rng.choice('abcxyz')}"
         if tnames and rng.random() < 0.35:
             s.decls.append(TypeDecl(nm, "ref", ("N", rng.choice(tnames))))
         elif rng.random() < 0.3:
@@ -118,14 +143,14 @@ def gen_schema(rng, size=6, tag=""):
             s.decls.append(TypeDecl(nm, "ref", ("S", rng.choice(SIMPLE))))
         tnames.append(nm)
     for i in range(rng.randint(0, 2)):
-        s.decls.append(TypeDecl(f"en_{i}{rng.choice('pq')}", "enum", [f"it_{i}_{j}" for j in range(rng.randint(1, 4))]))
+        s.decls.append(TypeDecl(f"{pre}en_{i}{rng.choice('pq')}", "enum", [f"{pre}it_{i}_{j}" for j in range(rng.randint(1, 4))]))
     nf = rng.randint(1, 2)
     for i in range(nf):
-        s.decls.append(Func(f"fn_{i}{rng.choice('uvw')}", rng.randint(1, 3)))
+        s.decls.append(Func(f"{pre}fn_{i}{rng.choice('uvw')}", rng.randint(1, 3)))
     n_ent = rng.randint(2, size)
     ents = []
     for i in range(n_ent):
-        e = Entity(f"e{i}{rng.choice('klmn')}")
+        e = Entity(f"{pre}e{i}{rng.choice('klmn')}")
         # supertypes among earlier entities (acyclic by construction)
         if ents and rng.random() < 0.65:
             k = 1 if rng.random() < 0.7 else 2
@@ -150,7 +175,7 @@ def gen_schema(rng, size=6, tag=""):
     for i in range(rng.randint(0, 3)):
         pool = [x.name for x in ents] + sels + tnames[:1]
         items = rng.sample(pool, min(len(pool), rng.randint(1, 3)))
-        nm = f"sel_{i}{rng.choice('gh')}"
+        nm = f"{pre}sel_{i}{rng.choice('gh')}"
         s.decls.append(TypeDecl(nm, "select", items))
         sels.append(nm)
     # attributes
@@ -186,6 +211,17 @@ def gen_schema(rng, size=6, tag=""):
             e.rules.append(Rule(f"wr{k}", "call", fn=f.name, argc=f.nparams, attr=rng.choice(nums).name)); k += 1
         if expl and rng.random() < 0.4:
             e.rules.append(Rule(f"wr{k}", "exists", attr=rng.choice(expl).name)); k += 1
+    # redeclaration of an inherited explicit attribute: SELF\\ancestor.attr : <same type>
+    for e in ents:
+        if rng.random() < 0.25:
+            cands = []
+            for an in sorted(_ancestors(s_with(s, ents), e)):
+                x = next(y for y in ents if y.name == an)
+                cands += [(x, a) for a in x.attrs if a.inverse_for is None and a.redecl_of is None]
+            if cands:
+                x, a = rng.choice(cands)
+                if not any(b.name == a.name for b in e.attrs):
+                    e.attrs.append(Attr(a.name, a.ty, redecl_of=x.name))
     # explicit attributes first, then INVERSE ones (the grammar's clause order)
     for e in ents:
         e.attrs = [a for a in e.attrs if a.inverse_for is None] + [a for a in e.attrs if a.inverse_for is not None]
@@ -194,9 +230,8 @@ def gen_schema(rng, size=6, tag=""):
     return s
 
 
-def render(s):
-    """returns (text, protocol lines)."""
-    out, proto = [], []
+def render_into(s, out, proto):
+    """append the text lines and protocol lines of one schema"""
     ln = lambda: len(out)
 
     def emit(t):
@@ -204,6 +239,20 @@ def render(s):
 
     proto.append(f"schema {s.name} {ln()}")
     emit(f"SCHEMA {s.name};")
+    for i in s.ifaces:
+        i.line = ln()
+        kw = "USE FROM" if i.kind == "use" else "REFERENCE FROM"
+        if i.items is None:
+            emit(f"{kw} {i.schema};")
+            proto.append(f"iface {i.kind} {i.schema} {i.line} whole")
+        else:
+            emit(f"{kw} {i.schema}")
+            proto.append(f"iface {i.kind} {i.schema} {i.line} items")
+            for k, it in enumerate(i.items):
+                it.line = ln()
+                txt = it.old + (f" AS {it.new}" if it.new else "")
+                emit(("  (" if k == 0 else "   ") + txt + ("," if k + 1 < len(i.items) else ");"))
+                proto.append(f"item {it.old} {it.new or '-'} {it.line}")
     for di, d in enumerate(s.decls):
         drop = s.drop_semicolon if s.drop_semicolon and s.drop_semicolon[0] == di else None
         if isinstance(d, TypeDecl):
@@ -250,8 +299,12 @@ def render(s):
                 a.line = ln()
                 if a.inverse_for is None:
                     semi = "" if (drop and drop[1] == "attr" and drop[2] == ai) else ";"
-                    emit(f"  {a.name} : {'OPTIONAL ' if a.optional else ''}{ty_text(a.ty)}{semi}")
-                    proto.append(f"attr {a.name} {a.line} {ty_proto(a.ty, a.line)}")
+                    if a.redecl_of:
+                        emit(f"  SELF\\{a.redecl_of}.{a.name} : {'OPTIONAL ' if a.optional else ''}{ty_text(a.ty)}{semi}")
+                        proto.append(f"redecl {a.name} {a.line} {ty_proto(a.ty, a.line)} {a.redecl_of}")
+                    else:
+                        emit(f"  {a.name} : {'OPTIONAL ' if a.optional else ''}{ty_text(a.ty)}{semi}")
+                        proto.append(f"attr {a.name} {a.line} {ty_proto(a.ty, a.line)}")
                     if semi == "":
                         proto.append(f"syntax entity {d.name} {ln()}")
                 else:
@@ -283,8 +336,19 @@ def render(s):
                     proto.append(f"selfattr {r.kw['attr']}")
             emit("END_ENTITY;")
     emit("END_SCHEMA;")
-    text = "\n".join(out) + "\n"
-    return text, proto
+
+
+def render(s):
+    """one schema or a `File` -> (text, protocol lines)"""
+    out, proto = [], []
+    if isinstance(s, File):
+        for sch in s.schemas:
+            render_into(sch, out, proto)
+        if s.order:
+            proto.insert(0, "order " + ",".join(s.order))
+    else:
+        render_into(s, out, proto)
+    return "\n".join(out) + "\n", proto
 
 
 def protocol(path, text, proto, with_bytes=True):
@@ -456,6 +520,10 @@ def m_missing_super(s, rng):
         p, n = rng.choice(c)
         x = s.find(n)
         x.supers = [y for y in x.supers if y != p.name]
+        # keep it a single fault: redeclarations that named a supertype x no longer has go away with it
+        for d in [x] + [s.find(n2) for n2 in _descendants(s, x)]:
+            anc = _ancestors(s, d)
+            d.attrs = [a for a in d.attrs if not (a.redecl_of and a.redecl_of not in anc)]
         return Fault("missing-supertype", s, [("MISSING_SUPERTYPE", [p.name, n])])
     ents = s.entities()
     p = rng.choice(ents)
@@ -478,7 +546,8 @@ def m_overload_attr(s, rng):
         for an in _ancestors(s, e):
             x = s.find(an)
             for a in x.attrs:
-                c.append((e, x, a))
+                if not any(b.name == a.name for b in e.attrs):
+                    c.append((e, x, a))
     if not c:
         return None
     e, x, a = rng.choice(c)
@@ -580,6 +649,234 @@ MUTATORS = {
 def mutate(schema, name, rng):
     s = copy.deepcopy(schema)
     return MUTATORS[name](s, rng)
+
+
+# ------------------------------------------------------------------------------------------------- multi-schema files
+class File:
+    """several schemas in one file, in text order; `order` (optional) tells the model the hash order"""
+
+    def __init__(self, schemas):
+        self.schemas, self.order = schemas, None
+
+    def find_schema(self, name):
+        return next((x for x in self.schemas if x.name == name), None)
+
+
+SCHEMA_NAMES = ["design", "catalogue", "geometry", "alpha_lib", "zeta", "m1", "core", "topology", "kernel", "b2", "parts", "qx"]
+
+
+def _own(sch):
+    """name -> kind of the entities and types a schema declares"""
+    out = {}
+    for d in sch.decls:
+        if isinstance(d, Entity):
+            out.setdefault(d.name, "entity")
+        elif isinstance(d, TypeDecl):
+            out.setdefault(d.name, "type")
+    return out
+
+
+def exports(f, T, depth=0):
+    """what `USE/REFERENCE FROM T ( n )` can name: own declarations, what fully USE'd schemas hand out, USE'd items (by their
+    visible name); name -> (home schema, declared name, kind)"""
+    t = f.find_schema(T)
+    if t is None or depth > len(f.schemas) + 2:
+        return {}
+    out = {n: (T, n, k) for n, k in _own(t).items()}
+    for i in t.ifaces:
+        if i.kind == "use" and i.items is None:
+            for n, o in exports(f, i.schema, depth + 1).items():
+                out.setdefault(n, o)
+    for i in t.ifaces:
+        if i.kind == "use" and i.items is not None:
+            src = exports(f, i.schema, depth + 1)
+            for it in i.items:
+                if it.old in src:
+                    out.setdefault(it.visible(), src[it.old])
+    return out
+
+
+def visible_imports(f, S):
+    """foreign names visible inside S (not shadowed by S's own declarations)"""
+    s = f.find_schema(S)
+    out = {}
+    for i in s.ifaces:
+        if i.kind == "use" and i.items is None:
+            for n, o in exports(f, i.schema).items():
+                out.setdefault(n, o)
+    for i in s.ifaces:
+        if i.kind == "use" and i.items is not None:
+            src = exports(f, i.schema)
+            for it in i.items:
+                if it.old in src:
+                    out.setdefault(it.visible(), src[it.old])
+    for i in s.ifaces:
+        if i.kind == "ref" and i.items is None:
+            t = f.find_schema(i.schema)
+            for n, k in (_own(t).items() if t else []):
+                out.setdefault(n, (i.schema, n, k))
+    for i in s.ifaces:
+        if i.kind == "ref" and i.items is not None:
+            src = exports(f, i.schema)
+            for it in i.items:
+                if it.old in src:
+                    out.setdefault(it.visible(), src[it.old])
+    own = _own(s)
+    return {n: o for n, o in out.items() if n not in own}
+
+
+def gen_file(rng, n_schemas=None, size=3):
+    """a valid multi-schema file: a chain (and some side links) of USE / REFERENCE clauses, partial (with AS renames) and
+    whole-schema, re-exports through USE, imported names used as attribute types; schema names and text order are random
+    (the resolver visits schemas in hash order)"""
+    n = n_schemas or rng.randint(2, 4)
+    names = rng.sample(SCHEMA_NAMES, n)
+    schemas = []
+    for k, nm in enumerate(names):
+        sch = gen_schema(rng, size, pre=f"{chr(ord('p') + k)}_")
+        sch.name = nm
+        schemas.append(sch)
+    f = File(schemas)
+    alias_n = [0]
+    # schema k imports from earlier ones (acyclic); favour the immediate predecessor so that chains form
+    for k in range(1, n):
+        s = schemas[k]
+        srcs = [k - 1] + ([rng.randrange(0, k)] if k > 1 and rng.random() < 0.4 else [])
+        for j in dict.fromkeys(srcs):
+            T = schemas[j].name
+            ex = exports(f, T)
+            if not ex:
+                continue
+            kind = "use" if rng.random() < 0.65 else "ref"
+            if rng.random() < 0.3:
+                s.ifaces.append(Iface(kind, T, None))
+            else:
+                # prefer names T itself only re-exports (chained import)
+                foreign = [x for x, o in ex.items() if o[0] != T]
+                pool = sorted(ex)
+                picks = []
+                if foreign:
+                    picks.append(rng.choice(sorted(foreign)))
+                picks += rng.sample(pool, min(len(pool), rng.randint(1, 2)))
+                items, seen = [], set()
+                for x in dict.fromkeys(picks):
+                    new = None
+                    if rng.random() < 0.4:
+                        alias_n[0] += 1
+                        new = f"al{alias_n[0]}{rng.choice('rst')}"
+                    it = Item(x, new)
+                    if it.visible() in seen or it.visible() in _own(s):
+                        continue
+                    seen.add(it.visible()); items.append(it)
+                if items:
+                    s.ifaces.append(Iface(kind, T, items))
+        # use what is visible: a new entity whose attributes are typed by imported names
+        vis = visible_imports(f, s.name)
+        if vis:
+            e = Entity(f"{chr(ord('p') + k)}_cli{k}")
+            for j, nm in enumerate(rng.sample(sorted(vis), min(len(vis), rng.randint(1, 3)))):
+                ty = ("N", nm) if rng.random() < 0.7 else ("A", "LIST [0:?] OF", ("N", nm))
+                e.attrs.append(Attr(f"a_{e.name}_{j}", ty))
+            s.decls.append(e)
+    rng.shuffle(f.schemas)
+    return f
+
+
+def mf_undef_schema(f, rng):
+    # only in a schema nobody imports from: importing from a schema that failed pass 1 is a different story (and crashes
+    # when the failed clause was a whole-schema USE: SCOPEfind_for_rename does not skip the NULL entry)
+    imported = {i.schema for s in f.schemas for i in s.ifaces}
+    c = [(s, i) for s in f.schemas if s.name not in imported for i in s.ifaces]
+    if not c:
+        return None
+    s, i = rng.choice(c)
+    nm = f"nosuch_lib{rng.randint(0, 99)}"
+    i.schema = nm
+    n = 1 if i.items is None else len(i.items)
+    return Fault("undefined-schema", f, [("UNDEFINED_SCHEMA", [nm])] * n)
+
+
+def mf_undef_item(f, rng):
+    c = [(s, i) for s in f.schemas for i in s.ifaces if i.items is not None]
+    if not c:
+        return None
+    s, i = rng.choice(c)
+    nm = f"nosuch_x{rng.randint(0, 99)}"
+    i.items.insert(rng.randint(0, len(i.items)), Item(nm, f"al_n{rng.randint(0, 9)}" if rng.random() < 0.3 else None))
+    return Fault("undefined-import", f, [("REF_NONEXISTENT", [nm, i.schema])])
+
+
+def mf_dup_alias(f, rng):
+    """two different objects imported under one visible name by clauses of the same kind"""
+    c = []
+    for s in f.schemas:
+        for i in s.ifaces:
+            if i.items:
+                ex = exports(f, i.schema)
+                for it in i.items:
+                    if it.old in ex:
+                        others = [x for x, o in ex.items() if o != ex[it.old]]
+                        if others:
+                            c.append((s, i, it, others))
+    if not c:
+        return None
+    s, i, it, others = rng.choice(c)
+    other = rng.choice(sorted(others))
+    alias = it.visible()
+    if other == alias:
+        return None
+    i.items.insert(i.items.index(it) + 1, Item(other, alias))
+    first = it
+    return Fault("duplicate-declaration", f, [("DUPLICATE_DECL", [alias, lambda: str(first.line)])],
+                 note=f"{it.old} and {other} both imported as {alias}")
+
+
+def m_dup_redecl_attr(s, rng):
+    """duplicate through a qualified redeclaration: SELF\\sup.attr twice, or attr and SELF\\sup.attr"""
+    c = []
+    for e in s.entities():
+        for an in sorted(_ancestors(s, e)):
+            x = s.find(an)
+            if isinstance(x, Entity):
+                c += [(e, x, a) for a in x.attrs if a.inverse_for is None and a.redecl_of is None]
+    if not c:
+        return None
+    e, x, a = rng.choice(c)
+    e.attrs = [b for b in e.attrs if b.name != a.name]
+    k = len([b for b in e.attrs if b.inverse_for is None])
+    shape = rng.choice(["redecl-redecl", "plain-redecl", "redecl-plain"])
+    first = Attr(a.name, a.ty, redecl_of=None if shape == "plain-redecl" else x.name)
+    second = Attr(a.name, a.ty, redecl_of=None if shape == "redecl-plain" else x.name)
+    e.attrs[k:k] = [first, second]
+    return Fault("duplicate-declaration", s, [("DUPLICATE_DECL", [a.name, lambda: str(first.line)])], note=shape + f" of {x.name}.{a.name} in {e.name}")
+
+
+def m_entity_as_type(s, rng):
+    ents = s.entities()
+    if not ents:
+        return None
+    e = rng.choice(ents)
+    t = TypeDecl(f"tie_{rng.randint(0, 99)}", "ref", ("N", e.name))
+    s.decls.insert(rng.randint(0, len(s.decls)), t)
+    return Fault("entity-as-type", s, [("TYPE_IS_ENTITY", [e.name])])
+
+
+MUTATORS["dup_redecl_attr"] = m_dup_redecl_attr
+MUTATORS["entity_as_type"] = m_entity_as_type
+FILE_MUTATORS = {"undef_schema": mf_undef_schema, "undef_item": mf_undef_item, "dup_alias": mf_dup_alias}
+
+
+def mutate_file(f, name, rng):
+    """a FILE_MUTATORS fault, or a single-schema mutator applied to one schema of the file"""
+    g = copy.deepcopy(f)
+    if name in FILE_MUTATORS:
+        return FILE_MUTATORS[name](g, rng)
+    s = rng.choice(g.schemas)
+    flt = MUTATORS[name](s, rng)
+    if flt is None:
+        return None
+    flt.schema = g
+    return flt
 
 
 # ------------------------------------------------------------------------------------------------- lexical mutants
